@@ -486,4 +486,83 @@ theorem get_complete {t : Tree T} (hinv : Inv t) {q : Interval} (hex : ∃ v, (q
       · exact ihr (inv_right hinv) ⟨v, he⟩
     · rfl
 
+/-! ### `searchAll` is exact -/
+
+/-- the entries in the order `searchAll` visits them: node, left subtree, right subtree -/
+def preorder : Tree T → List (Interval × T)
+  | .nil => []
+  | .node xi xv _ l r _ => (xi, xv) :: (preorder l ++ preorder r)
+
+theorem preorder_perm (t : Tree T) : (preorder t).Perm (entries t) := by
+  induction t with
+  | nil => exact List.Perm.refl _
+  | node xi xv xm l r n ihl ihr =>
+    simp only [preorder, entries]
+    exact ((ihl.append ihr).cons _).trans List.perm_middle.symm
+
+/-- the entries containing `p`, in visiting order -/
+def hits (t : Tree T) (p : Int) : List (Interval × T) := (preorder t).filter (fun e => e.1.contains p)
+
+theorem hits_eq_nil_iff (t : Tree T) (p : Int) :
+    hits t p = [] ↔ ∀ e ∈ entries t, e.1.contains p = false := by
+  unfold hits
+  rw [List.filter_eq_nil_iff]
+  constructor
+  · intro h e he; simpa using h e ((preorder_perm t).mem_iff.2 he)
+  · intro h e he; simpa using h e ((preorder_perm t).mem_iff.1 he)
+
+theorem searchAll_exact {t : Tree T} (hinv : Inv t) (p : Int) (acc : List (Interval × T)) :
+    searchAll t p acc = (!(hits t p).isEmpty, acc ++ hits t p) := by
+  induction t generalizing acc with
+  | nil => simp [searchAll, hits, preorder]
+  | node xi xv xm l r n ihl ihr =>
+    have hs := (sorted_node_iff ..).1 hinv.2
+    have ihl := ihl (inv_left hinv)
+    have ihr := ihr (inv_right hinv)
+    have hL : leftBelow l p = true → hits l p = [] := by
+      intro hb
+      have hall := (leftBelow_iff hinv.1.1 p).1 hb
+      rw [hits_eq_nil_iff]
+      intro e he
+      have := hall e he
+      simp [Interval.contains]; omega
+    have hR : leftBelow l p = false → hits l p = [] → hits r p = [] := by
+      intro hb hl
+      have : ∃ e0 ∈ entries l, p ≤ e0.1.max := by
+        by_contra hno
+        have := (leftBelow_iff hinv.1.1 p).2 (fun e0 he0 => by
+          by_contra hlt; exact hno ⟨e0, he0, by omega⟩)
+        rw [hb] at this; cases this
+      obtain ⟨e0, he0, hmax⟩ := this
+      have hc0 := (hits_eq_nil_iff l p).1 hl e0 he0
+      have hmin : p < e0.1.min := by simp [Interval.contains] at hc0; omega
+      rw [hits_eq_nil_iff]
+      intro e he
+      have := hs.2.2.2.2 e0 he0 e he
+      unfold ile at this
+      simp [Interval.contains]; omega
+    have hh : hits (.node xi xv xm l r n) p =
+        (if xi.contains p then [(xi, xv)] else []) ++ (hits l p ++ hits r p) := by
+      simp only [hits, preorder, List.filter_cons, List.filter_append]
+      split <;> simp
+    rw [hh]
+    unfold searchAll
+    cases hb : leftBelow l p
+    · simp only [Bool.not_false, if_true, ihl]
+      by_cases hl : hits l p = []
+      · have hr := hR hb hl
+        simp only [hl, hr]
+        by_cases hc : xi.contains p = true <;> simp [hc]
+      · simp only [ihr]
+        by_cases hc : xi.contains p = true <;> cases hhl : hits l p <;> simp_all
+    · have hl := hL hb
+      simp only [hl, ihr]
+      by_cases hc : xi.contains p = true <;> simp [hc]
+
+theorem searchAllTop_exact {t : Tree T} (hinv : Inv t) (p : Int) : searchAllTop t p = hits t p := by
+  simp [searchAllTop, searchAll_exact hinv]
+
+theorem hits_perm (t : Tree T) (p : Int) :
+    (hits t p).Perm ((entries t).filter (fun e => e.1.contains p)) := (preorder_perm t).filter _
+
 end Verif.Proofs.DS.IST
